@@ -82,7 +82,7 @@ def gen_input(src, idx):
 # weights: cheap table/nested invocables often, the 1-2 ms ones less often (fixed work per plan stays bounded)
 INVOCABLE_WEIGHTS = [(4, "Mid"), (3, "Numeric"), (3, "Temporal"), (3, "Regex"), (3, "Grid"), (2, "Collect"), (2, "Priority"),
                      (2, "Ranked"), (2, "Ordered"), (1, "Listed"), (1, "Least"), (3, "ManyZones"), (3, "Allowed"),
-                     (2, "Svc"), (2, "Calc"), (2, "Leaf"), (1, "Band"), (1, "Base"), (2, "Top"), (1, "Powers"), (1, "Outer"), (2, "Recur"), (2, "Consts"), (2, "UsesConsts"),
+                     (2, "Svc"), (2, "Calc"), (2, "Leaf"), (1, "Band"), (1, "Base"), (2, "Top"), (2, "Powers"), (2, "Lists"), (3, "Sorted"), (1, "Outer"), (2, "Recur"), (2, "Consts"), (2, "UsesConsts"),
                      (1, "No Such Invocable")]
 
 
@@ -91,7 +91,7 @@ def gen_plan(src):
     if src.bool(0.15):
         nthreads = src.int(2, 16)
     ncalls = src.int(2, 24)
-    focus = src.weighted([(5, None), (1, "numeric"), (1, "temporal"), (1, "regex"), (1, "table"), (2, "nested"), (2, "typed"), (2, "recursion"), (2, "constant")])
+    focus = src.weighted([(5, None), (1, "numeric"), (1, "temporal"), (1, "regex"), (1, "table"), (2, "nested"), (2, "typed"), (2, "recursion"), (2, "constant"), (2, "lists")])
     calls = []
     for i in range(ncalls):
         if focus is not None and src.bool(0.8):
